@@ -42,11 +42,9 @@ def s1(ck, an):
     k = [fa.sym.canon(r.value) for r in rets]
     if len(rets) == 1:
         idx = fa.sym.ev(rets[0].value)
-        atoms = idx.atoms()
-        b = [a for a in atoms if a.startswith(("bisect_right(self._last_trading_dates, ", "bisect.bisect_right(self._last_trading_dates, ")) and f"({now_p}" in a.replace("phi(", "(")]
-        ok = len(idx.t) == 2 and len(b) == 1 and idx.coeff_of_atom(b[0]) == Poly.const(1) and idx.coeff_of_atom("self._month") == Poly.const(1)
-        if any("bisect_left" in a for a in atoms):
-            ok = False
+        # the specification, written in source syntax over the function's own parameter and normalised by the same evaluator
+        specs = [fa.sym.ev(ast.parse(f"{b}(self._last_trading_dates, self.now if {now_p} is None else {now_p}) + self._month", mode="eval").body, fa.cfg.entry.id) for b in ("bisect_right", "bisect.bisect_right")]
+        ok = idx in specs
     ck.check(ok, "IDIOM", "S1.lead-index", subj, fa.f.loc, "lead index = bisect_right(last trading dates, now) + month offset (first contract whose last trading date is strictly later than now)",
              f"_lead_contract_idx returns {k}", construct="idx = bisect_right(self._last_trading_dates, now) + self._month")
     for short in ("FutureChain._lead_contract_idx", "FutureChain.lead_contract"):
